@@ -14,6 +14,10 @@
 
 pub use ::std::*;
 
+/// `thread_local!` with one instance per simulated thread (tools/instrument.sh rewrites the
+/// crate's `thread_local!` invocations to this)
+pub use ::shuttle::thread_local as task_local;
+
 pub mod sync {
     pub use ::std::sync::*;
 
